@@ -54,11 +54,8 @@ var preludeDefs = map[string]string{
 	"bit_shl":    "(declare-fun bit_shl (Int Int) Int)",
 	"bit_shr":    "(declare-fun bit_shr (Int Int) Int)",
 	"rng_draw":   "(declare-fun rng_draw (Int Int) Int)",
-	"psum":       "(declare-fun psum ((Array Int Int) Int Int) Int)",
-	"arr_min":    "(declare-fun arr_min ((Array Int Int) Int Int) Int)",
-	"arr_max":    "(declare-fun arr_max ((Array Int Int) Int Int) Int)",
-	"arr_minidx": "(declare-fun arr_minidx ((Array Int Int) Int Int) Int)",
-	"arr_maxidx": "(declare-fun arr_maxidx ((Array Int Int) Int Int) Int)",
+	"psum":       "(declare-fun psum (Int Int Int) Int)",
+	"perm_idx":   "(declare-fun perm_idx (Int Int Int Int Int) Int)",
 	"map_len":    "(declare-fun map_len (Int Int) Int)",
 }
 
@@ -69,7 +66,7 @@ var preludeDeps = map[string][]string{
 
 var preludeAxioms = map[string][]string{
 	"str_len": {
-		"(assert (forall ((s Str)) (! (>= (str_len s) 0) :pattern ((str_len s)))))",
+		"(assert (forall ((s Str)) (! (and (>= (str_len s) 0) (<= (str_len s) 4611686018427387904)) :pattern ((str_len s)))))",
 	},
 	"str_empty": {
 		"(assert (= (str_len str_empty) 0))",
@@ -86,33 +83,95 @@ var preludeAxioms = map[string][]string{
 const anyDecl = "(declare-datatypes ((Any 0)) (((any_nil) (any_int (any_itag Int) (any_ival Int)) (any_str (any_stag Int) (any_sval Str)) (any_flt (any_ftag Int) (any_fval Flt)) (any_bool (any_btag Int) (any_bval Bool)) (any_ref (any_rtag Int) (any_raddr Int)))))"
 
 // BuildSMT renders an obligation as an SMT-LIB script.
-func (e *Engine) BuildSMT(o *Obligation, models bool) string {
+func (e *Engine) BuildSMT(o *Obligation, models bool) string { return e.BuildSMTVariant(o, models, 0) }
+
+// hasNonlinear: a product of two non-literal terms occurs in t.
+func hasNonlinear(t *Term, memo map[int]bool) bool {
+	if v, ok := memo[t.id]; ok {
+		return v
+	}
+	r := false
+	if t.Op == "*" && len(t.Args) == 2 && t.Args[0].Int == nil && t.Args[1].Int == nil {
+		r = true
+	} else if (t.Op == "go_mod" || t.Op == "go_div" || t.Op == "mod" || t.Op == "div") && len(t.Args) == 2 && t.Args[1].Int == nil {
+		r = true
+	} else {
+		for _, a := range t.Args {
+			if hasNonlinear(a, memo) {
+				r = true
+				break
+			}
+		}
+	}
+	memo[t.id] = r
+	return r
+}
+
+// BuildSMTVariant renders the obligation.  Variant 0 uses every assumption.  Variant 1 drops the assumptions
+// that contain non-linear arithmetic when the goal itself is linear (dropping assumptions is always sound for a
+// proof; a `sat` answer of variant 1 is never used).
+func (e *Engine) BuildSMTVariant(o *Obligation, models bool, variant int) string {
 	if o.Lemma != nil {
 		return o.Lemma.Body
 	}
 	ts := e.ts
-	roots := append([]*Term{}, o.Assumes...)
+	assumes := o.Assumes
+	if variant == 1 {
+		memo := map[int]bool{}
+		if hasNonlinear(o.Goal, memo) {
+			return ""
+		}
+		var kept []*Term
+		dropped := 0
+		for _, a := range assumes {
+			if hasNonlinear(a, memo) {
+				dropped++
+				continue
+			}
+			kept = append(kept, a)
+		}
+		if dropped == 0 {
+			return ""
+		}
+		assumes = kept
+	}
+	roots := append([]*Term{}, assumes...)
 	neg := ts.Not(o.Goal)
 	roots = append(roots, neg)
-	// instantiated unfolding of psum for the terms that occur
+	// instantiated facts about psum for the terms that occur: one-step unfolding, and the relation between
+	// the sums over a conditional heap and over its branches
 	var extra []*Term
-	for _, ps := range CollectApps(roots, "psum") {
-		h, p, n := ps.Args[0], ps.Args[1], ps.Args[2]
-		if p.Op == "" {
+	seenPs := map[int]bool{}
+	work := CollectApps(roots, "psum")
+	for len(work) > 0 && len(seenPs) < 400 {
+		ps := work[0]
+		work = work[1:]
+		if seenPs[ps.id] || hasBoundVar(ps) {
 			continue
 		}
-		if hasBoundVar(ps) {
+		seenPs[ps.id] = true
+		hid, p, n := ps.Args[0], ps.Args[1], ps.Args[2]
+		h := e.heapIds[hid.id]
+		if h == nil {
+			continue
+		}
+		if h.Op == "ite" {
+			a := e.psumTerm(h.Args[1], p, n)
+			b := e.psumTerm(h.Args[2], p, n)
+			extra = append(extra, ts.Eq(ps, ts.Ite(h.Args[0], a, b)))
+			work = append(work, a, b)
 			continue
 		}
 		n1 := ts.Sub(n, ts.Int(1))
+		prev := e.psumTerm(h, p, n1)
 		extra = append(extra, ts.Implies(ts.Le(n, ts.Int(0)), ts.Eq(ps, ts.Int(0))))
-		extra = append(extra, ts.Implies(ts.Gt(n, ts.Int(0)), ts.Eq(ps, ts.Add(ts.App("psum", SInt, h, p, n1), ts.Select(h, ts.Add(p, n1))))))
+		extra = append(extra, ts.Implies(ts.Gt(n, ts.Int(0)), ts.Eq(ps, ts.Add(prev, ts.Select(h, ts.Add(p, n1))))))
 	}
 	roots = append(roots, extra...)
 	pr := NewPrinter(ts)
 	pr.Prepare(roots...)
 	var body []string
-	for _, a := range o.Assumes {
+	for _, a := range assumes {
 		body = append(body, "(assert "+pr.Print(a)+")")
 	}
 	for _, a := range extra {
@@ -247,6 +306,14 @@ type solverSpec struct {
 	args func(file string, secs int) []string
 }
 
+// extra z3 configurations raced in stage 2 (quantifier instantiation is seed-sensitive)
+var seedSolvers = []solverSpec{
+	{"z3-new/seed2", func(f string, s int) []string { return []string{"z3-new", fmt.Sprintf("-T:%d", s), "smt.random_seed=2", f} }},
+	{"z3-new/seed3", func(f string, s int) []string { return []string{"z3-new", fmt.Sprintf("-T:%d", s), "smt.random_seed=3", f} }},
+	{"z3/seed2", func(f string, s int) []string { return []string{"z3", fmt.Sprintf("-T:%d", s), "smt.random_seed=2", f} }},
+	{"z3/seed3", func(f string, s int) []string { return []string{"z3", fmt.Sprintf("-T:%d", s), "smt.random_seed=3", f} }},
+}
+
 var solvers = []solverSpec{
 	{"z3-new", func(f string, s int) []string { return []string{"z3-new", fmt.Sprintf("-T:%d", s), f} }},
 	{"cvc5", func(f string, s int) []string {
@@ -263,8 +330,12 @@ type solveResult struct {
 }
 
 func runSolver(sp solverSpec, file string, secs int) solveResult {
+	return runSolverCtx(context.Background(), sp, file, secs)
+}
+
+func runSolverCtx(parent context.Context, sp solverSpec, file string, secs int) solveResult {
 	args := sp.args(file, secs)
-	ctx, cancel := context.WithTimeout(context.Background(), time.Duration(secs+3)*time.Second)
+	ctx, cancel := context.WithTimeout(parent, time.Duration(secs+3)*time.Second)
 	defer cancel()
 	t0 := time.Now()
 	cmd := exec.CommandContext(ctx, args[0], args[1:]...)
@@ -294,11 +365,22 @@ func (e *Engine) SolveAll(obls []*Obligation, secs int, par int, thorough bool, 
 	defer os.RemoveAll(dir)
 	// render scripts sequentially (the term store is not concurrency-safe)
 	files := make([]string, len(obls))
+	alt := make([]string, len(obls))
 	for i, o := range obls {
 		txt := e.BuildSMT(o, false)
 		o.SMTSize = len(txt)
 		files[i] = filepath.Join(dir, fmt.Sprintf("o%d.smt2", i))
 		os.WriteFile(files[i], []byte(txt), 0o644)
+		if o.Kind != "frame" && o.Lemma == nil {
+			if t1 := e.BuildSMTVariant(o, false, 1); t1 != "" {
+				alt[i] = filepath.Join(dir, fmt.Sprintf("o%d.v1.smt2", i))
+				os.WriteFile(alt[i], []byte(t1), 0o644)
+				if keepDir != "" {
+					os.MkdirAll(keepDir, 0o755)
+					os.WriteFile(filepath.Join(keepDir, safeFile(o.Name)+".v1.smt2"), []byte(t1), 0o644)
+				}
+			}
+		}
 		if keepDir != "" {
 			os.MkdirAll(keepDir, 0o755)
 			os.WriteFile(filepath.Join(keepDir, safeFile(o.Name)+".smt2"), []byte(txt), 0o644)
@@ -312,7 +394,7 @@ func (e *Engine) SolveAll(obls []*Obligation, secs int, par int, thorough bool, 
 		go func(i int) {
 			defer wg.Done()
 			defer func() { <-sem }()
-			solveOne(obls[i], files[i], secs, thorough)
+			solveOne(obls[i], files[i], alt[i], secs, thorough)
 		}(i)
 	}
 	wg.Wait()
@@ -327,31 +409,73 @@ func safeFile(s string) string {
 	return s
 }
 
-func solveOne(o *Obligation, file string, secs int, thorough bool) {
+func solveOne(o *Obligation, file string, altFile string, secs int, thorough bool) {
+	if o.Kind == "frame" {
+		// decided by the syntactic frame pass
+		if o.Goal.IsTrue() {
+			o.Status = "proved"
+		} else {
+			o.Status = "failed"
+		}
+		return
+	}
 	// first a short attempt with the usually fastest solver, then a race of all three
 	quick := secs
-	if quick > 4 {
-		quick = 4
+	if quick > 2 {
+		quick = 2
 	}
-	r := runSolver(solvers[0], file, quick)
+	// stage 1: the two z3 versions side by side
+	var r solveResult
+	{
+		ctx, cancel := context.WithCancel(context.Background())
+		ch := make(chan solveResult, 2)
+		go func() { ch <- runSolverCtx(ctx, solvers[0], file, quick) }()
+		go func() { ch <- runSolverCtx(ctx, solvers[2], file, quick) }()
+		r = <-ch
+		if r.verdict != "unsat" && r.verdict != "sat" {
+			r2 := <-ch
+			if r2.verdict == "unsat" || r2.verdict == "sat" {
+				r = r2
+			}
+		}
+		cancel()
+	}
 	total := r.secs
 	if r.verdict == "unknown" || r.verdict == "error" {
-		ch := make(chan solveResult, len(solvers))
-		for _, sp := range solvers {
-			go func(sp solverSpec) { ch <- runSolver(sp, file, secs) }(sp)
+		all := append(append([]solverSpec{}, solvers...), seedSolvers...)
+		njobs := len(all)
+		if altFile != "" {
+			njobs *= 2
+		}
+		ctx, cancelAll := context.WithCancel(context.Background())
+		t1 := time.Now()
+		ch := make(chan solveResult, njobs)
+		for _, sp := range all {
+			go func(sp solverSpec) { ch <- runSolverCtx(ctx, sp, file, secs) }(sp)
+			if altFile != "" {
+				go func(sp solverSpec) {
+					rr := runSolverCtx(ctx, sp, altFile, secs)
+					rr.solver += "(linear-assumptions)"
+					if rr.verdict == "sat" {
+						rr.verdict = "unknown" // a model of fewer assumptions proves nothing
+					}
+					ch <- rr
+				}(sp)
+			}
 		}
 		var best solveResult
 		best.verdict = "unknown"
 		var outs []string
-		for range solvers {
+		for j := 0; j < njobs; j++ {
 			rr := <-ch
 			outs = append(outs, rr.solver+": "+strings.TrimSpace(firstLines(rr.output, 3)))
 			if rr.verdict == "unsat" || rr.verdict == "sat" {
-				if best.verdict == "unknown" {
-					best = rr
-				}
+				best = rr
+				break
 			}
 		}
+		cancelAll()
+		best.secs = time.Since(t1).Seconds()
 		total += best.secs
 		if best.verdict == "unknown" {
 			best.output = strings.Join(outs, " | ")
